@@ -1,6 +1,6 @@
 (* CommitConsensus.v — model of commit/merkleroot: types.go:aggregateObservations,
    validate_observation.go:Processor.ValidateObservation (+ the role lookups of plugincommon.ChainSupport it calls),
-   outcome.go:getConsensusObservation.
+   outcome.go:getConsensusObservation (as repaired by fixes/F26.patch; the pre-repair function is get_consensus_unfixed).
    Byte strings (on-ramp address, merkle root) and the whole RMN remote config are ids interned by the harness from a
    canonical encoding of their content (every exported field), so equal id <=> equal value; that minObservation's own
    identity (sha3 of the "%v" rendering) separates exactly the values that differ is checked by the correspondence. *)
@@ -129,7 +129,24 @@ Record cons := mkCons {
   c_rmn : list (N * N);
   c_fchain : list (N * Z) }.
 
+(* as repaired by fixes/F26.patch: off-ramp next numbers are destination data (only destination readers may report
+   them), so every key of that map is agreed at the constant threshold 2*f_dest+1 — also a source chain whose own f is
+   not agreed; the other per-chain maps stay at 2*f_key+1 *)
 Definition get_consensus (F : Z) (dest : N) (aos : list aobs) : res cons :=
+  let a := aggregate aos in
+  let fch := consensus_map Z.eqb (fun _ : N => Some (two_f_plus_1 F)) (a_fchain a) in
+  match alookup dest fch with
+  | None => Err
+  | Some fd =>
+      Ok (mkCons (consensus_map root_eqb (thr_2f1 fch) (a_roots a))
+                 (consensus_map N.eqb (thr_2f1 fch) (a_onramp a))
+                 (consensus_map N.eqb (fun _ : N => Some (two_f_plus_1 fd)) (a_offramp a))
+                 (consensus_map N.eqb (thr_2f1 fch) [(dest, a_rmn a)])
+                 fch)
+  end.
+
+(* before fixes/F26.patch: the off-ramp entry of source chain k was agreed at 2*f_k+1 *)
+Definition get_consensus_unfixed (F : Z) (dest : N) (aos : list aobs) : res cons :=
   let a := aggregate aos in
   let fch := consensus_map Z.eqb (fun _ : N => Some (two_f_plus_1 F)) (a_fchain a) in
   match alookup dest fch with
